@@ -34,6 +34,9 @@ type PointRec struct {
 	Chosen  int
 	// Continues: Enabled[0] is the thread released last (switching away from it is a preemption).
 	Continues bool
+	// Deviation[i]: entry i is a non-default alternative of a choice point
+	// (a select trying another case first); taking it costs one unit of the bound.
+	Deviation []bool
 }
 
 // Exec is one execution.
@@ -57,6 +60,10 @@ type Exec struct {
 	Data       any // scenario-private data (world) for the check
 	// StepFindings are findings raised by Scenario.AfterStep during the run.
 	StepFindings []Finding
+	// Class: a readable classification of the outcome set by Scenario.Check;
+	// counted per scenario in the evidence (vacuity check: a race scenario in
+	// which one side always wins explored nothing).
+	Class string
 }
 
 // Log appends to the observation log. It is a scheduling point, so the order
@@ -226,9 +233,27 @@ func Run(t *testing.T, sc *Scenario, prefix []int, expect []uint64) *Exec {
 				}
 				return en[i].Name < en[j].Name
 			})
+			// a choice point contributes one entry per alternative
+			type entry struct {
+				p   *vsched.Parked
+				alt int
+			}
+			var ents []entry
 			rec := PointRec{Continues: en[0].Name == last}
 			for _, p := range en {
-				rec.Enabled = append(rec.Enabled, p.Name+"@"+p.Label)
+				n := p.Alts
+				if n < 1 {
+					n = 1
+				}
+				for k := 0; k < n; k++ {
+					ents = append(ents, entry{p, k})
+					nm := p.Name + "@" + p.Label
+					if k > 0 {
+						nm += fmt.Sprintf("#%d", k)
+					}
+					rec.Enabled = append(rec.Enabled, nm)
+					rec.Deviation = append(rec.Deviation, k > 0)
+				}
 			}
 			choice := 0
 			if step < len(prefix) {
@@ -237,15 +262,15 @@ func Run(t *testing.T, sc *Scenario, prefix []int, expect []uint64) *Exec {
 					e.Diverged = fmt.Sprintf("step %d: enabled set %v differs from the recorded one", step, rec.Enabled)
 					break
 				}
-				if choice >= len(en) {
-					e.Diverged = fmt.Sprintf("step %d: choice %d of %d enabled", step, choice, len(en))
+				if choice >= len(ents) {
+					e.Diverged = fmt.Sprintf("step %d: choice %d of %d enabled", step, choice, len(ents))
 					break
 				}
 			}
 			rec.Chosen = choice
 			e.Points = append(e.Points, rec)
-			last = en[choice].Name
-			s.Release(en[choice])
+			last = ents[choice].p.Name
+			s.ReleaseAlt(ents[choice].p, ents[choice].alt)
 		}
 		// who is unfinished
 		parkedAt := map[string]string{}
@@ -318,7 +343,7 @@ type Explorer struct {
 	Deadline time.Time
 	// statistics
 	Execs, Divergences, Capped int64
-	MaxPoints                 int
+	MaxPoints                  int
 	// CompletedBound is the highest preemption bound fully explored by this
 	// shard for its share of the schedule tree (-1 = not even the 0-preemption schedules).
 	CompletedBound int
@@ -352,13 +377,13 @@ func (x *Explorer) children(e *Exec, from int, baseCost int, limit int) []item {
 		p := e.Points[i]
 		for alt := 1; alt < len(p.Enabled); alt++ {
 			c := baseCost
-			if p.Continues {
+			if p.Continues || (alt < len(p.Deviation) && p.Deviation[alt]) {
 				c++
 			}
 			if c > x.Bound {
 				continue
 			}
-			it := item{append(append([]int(nil), choices[:i]...), alt), hashes[:i+1:i+1], c}
+			it := item{append(append([]int(nil), choices[:i]...), alt), hashes[: i+1 : i+1], c}
 			if c <= limit {
 				out = append(out, it)
 			} else {
@@ -435,7 +460,11 @@ func (x *Explorer) judge(e *Exec) {
 		r.Count("step_cap_hits", 1)
 		r.NotExhaustive("an execution hit the step cap")
 	}
-	for _, f := range x.Sc.Check(e) {
+	fs := x.Sc.Check(e)
+	if e.Class != "" {
+		r.Count("class:"+x.Sc.Name+":"+e.Class, 1)
+	}
+	for _, f := range fs {
 		r.Violation(f.Sig, key, fmt.Sprintf("%s schedule [%s]: %s", x.Sc.Name, caseKey("", trimChoices(e.Choices())), f.Msg), map[string]any{"choices": trimChoices(e.Choices()), "observations": obs, "points": pointSummary(e)})
 	}
 	if x.Execs == 1 {
